@@ -131,3 +131,135 @@ PROPS["C15"] = dict(
         dict(test="TestC15LockService", quick=dict(checks=16000, shards=8, timeout=300), thorough=dict(checks=1600000, shards=16, timeout=3000)),
     ],
 )
+
+PROPS["C08"] = dict(
+    pkg="c08", level="exploration",
+    technique="property-based testing (rapid) over generated schedules, delivery orders, timeouts and crash points: the real generated raftkvs archetypes under a deterministic step scheduler with real LocalShared state, invariant oracles after every committed step",
+    level_text="1-5 servers x 5 real generated archetypes each (wired as bootstrap/server.go wires them: real LocalSharedManager state, optionally real "
+               "Persistent/PersistentLog on in-memory badger) plus 1-3 real AClient archetypes run on the real Run loop, one attempt at a time. Who steps, "
+               "which per-link-FIFO message is delivered, every either-branch, election/client time-outs, failure-detector answers and crash-stop of a "
+               "minority at drawn steps are rapid draws (swarm-biased). After every commit the spec's invariants (ElectionSafety, LogMatching, "
+               "LeaderCompleteness, StateMachineSafety, ApplyLogOK, LeaderAppendOnly) and their history forms are evaluated over the servers' variables.",
+    level_note="Invariants are evaluated on a shadow of the variables maintained from committed write events and compared with the real shared variables "
+               "(GetState) periodically and at the end of every run. Network, failure detector, timers and channels are harness resources following the "
+               "deployment's wiring; schedules are sampled (depth <= 3000 attempts), so rare deep interleavings may be missed.",
+    rule="drawn configuration + workload + crash plan + schedule of 200-3000 attempts; non-trivial = >=2 terms had a leader, >=1 entry committed, and a "
+         "follower log truncation, a leader change after a commit, or a crash of a leader occurred; distinct by rendered schedule.",
+    runs=[
+        dict(test="TestC08RaftSafety", quick=dict(checks=1600, shards=16, timeout=600), thorough=dict(checks=160000, shards=16, timeout=3300)),
+    ],
+)
+
+PROPS["C19"] = dict(
+    pkg="c19", level="fault_enumeration",
+    technique="property-based testing with generated event orders and injected network faults (rapid): real Monitor + real MPCalContext + real FailureDetector resources behind a harness-owned TCP fault proxy; model-based expectation after every event",
+    level_text="Generated orders (3-10 events) of monitor start/close, archetype start/end (Done, Stop, error, panic), detector start (1-2 detector pairs, "
+               "each with its own proxy), path sever (refuse or reset) / blackhole / heal and read bursts; pull interval 5-20 ms, time-out 10-40 ms, archetype id "
+               "number/string/tuple. After every event each detector is sampled until it gives the answer the statement demands (bound 3 polling cycles + 1.5 s "
+               "slack on a stall-compensated clock) and then watched for 2 more cycles; a detector must never read FALSE unless the monitor could have told it so "
+               "since it started (timing-free); reads must return within interval+slack and abort only before the first answer; a continuously-read twin and a "
+               "rarely-read twin must agree at settled points, and so must back-to-back reads.",
+    level_note="Timing-based by nature: a miss is re-run alone; the kinds one stalled poll can produce (healthy archetype briefly reported failed, twin/burst mismatch, "
+               "never-alive) must additionally reproduce twice with the time-out x25 while a canary goroutine sees no starvation, so accuracy defects that only exist "
+               "at 10-40 ms time-outs are not claimed. 'Archetype registered nowhere yet, monitor reachable' is treated as unspecified (observed: always TRUE).",
+    rule="rapid-drawn event orders over {monitor-start, monitor-close, archetype-start, archetype-end x4, detector-start(slot), path(slot)=sever/blackhole/heal, read(slot)xN}; "
+         "non-trivial = some detector was started before the monitor was ever up and read TRUE, later read FALSE once monitor and archetype were up, and later "
+         "read TRUE again after the archetype ended by panic or error; distinct by rendered scenario.",
+    assumptions=["archetype ids carry a per-process unique component so that a port freed by a case and re-bound by another test process can never answer 'alive'"],
+    runs=[
+        dict(test="TestC19Detector", quick=dict(checks=400, shards=16, timeout=600), thorough=dict(checks=16000, shards=16, timeout=3600)),
+    ],
+)
+
+PROPS["C07"] = dict(
+    pkg="c07", level="exploration",
+    technique="stateful property-based testing (rapid state machine) of the shared-variable manager against a lock-table + value model, "
+              "plus generated concurrent bank programs on real MPCalContexts judged by serial replay in the order of a lock-protected clock cell",
+    level_text="(a) One goroutine drives 2-5 logical sharers over 1-4 LocalSharedManagers (scalar/record/tuple values, time-outs 1-3 ms, some under "
+               "resources.MakePersistent) with read / write / index-read / index-write / commit / abort exactly as MPCalContext would; every access is judged "
+               "against a two-phase-locking model (granted iff free or own, else ErrCriticalSectionAborted with no effect; own writes / last committed "
+               "value read; commit publishes, abort restores; GetState between sections; no call beyond 50x time-out + 200 ms). (b) 2-6 real contexts "
+               "run generated transfer / read-all / increment sections over 2-4 shared cells in drawn (also opposite) lock orders with drawn think times "
+               "and time-outs 2-50 ms; the run must end, committed read-alls must see a conserved sum, and the committed sections replayed serially in "
+               "clock-cell order must reproduce every recorded read and the final GetState of every cell. Sampling of interleavings, not proof.",
+    level_note="Trusts the harness's 2PL model and the runtime's trace recorder (recorded accesses are checked against the program). A refusal of a lock "
+               "that must be free is repeated up to 5 times before it counts (a scheduling stall longer than the 1-3 ms time-out lets Go's select pick the "
+               "time-out branch; counted as model.spurious-timeout-on-free-lock). (b) explores the interleavings Go's scheduler plus drawn sleeps produce; "
+               "PGO_DISRUPT_CONCURRENCY is not used (its sleeps are not rapid draws). No progress for 10 s without a leaked lock is set aside as inconclusive.",
+    rule="(a) rapid state-machine histories; non-trivial = a conflict-induced abort of a sharer that holds >=1 other lock at that moment; distinct by rendered history. "
+         "(b) generated programs; non-trivial = two archetypes take the locks of two cells in opposite orders and >=1 conflict (non-await) abort was observed; distinct by rendered programs.",
+    runs=[
+        dict(test="TestC07Model", quick=dict(checks=4000, shards=8, timeout=300), thorough=dict(checks=320000, shards=16, timeout=2400)),
+        dict(test="TestC07Concurrent", race={"thorough": True}, quick=dict(checks=800, shards=8, timeout=300), thorough=dict(checks=48000, shards=16, timeout=3000)),
+    ],
+)
+
+PROPS["C13"] = dict(
+    pkg="c13", level="fault_enumeration",
+    technique="stateful property-based testing (rapid state machine) with generated fault points: 2-4 real NewCRDT resources on loopback driven by one goroutine, "
+              "broadcast rounds and incoming ReceiveValue calls placed by the generator (verif hooks), distinguishable updates, model of committed knowledge",
+    level_text="Generated interleavings of writes, commits, aborts, reads, broadcast rounds (also between a write and its commit) and incoming "
+               "ReceiveValue calls over 2-4 real CRDT resources (GCounter, AWORSet; peer lists with and without self; a third run adds rounds in "
+               "which every connected peer answers with an RPC error). Every update is identifiable in what a node reads (increments 3^k; one "
+               "designated writer per set element), so at every step every node's read, and every state a node hands to a peer, is checked: "
+               "nothing of an open or aborted section shows (S1), what a node was seen to know never shrinks and its own committed updates are "
+               "always there (S2), a section reads its own writes (S3); after updates stop and every node has ticked (<=10 rounds) every node "
+               "reads exactly the join of all committed updates (C).",
+    level_note="Delivery is asserted at the end of each case (the statement says 'eventually'), not after each round. Peers are reachable throughout; the only "
+               "injected fault is a round whose calls all fail while the peers stay connected. Half of the cases exclude by construction the history "
+               "shapes of listed findings so every oracle is live there; in the other half a violation is set aside only if the history has a listed shape.",
+    rule="rapid state-machine histories (write/commit/abort/read/tick/recv over 2-4 nodes); non-trivial = a broadcast tick of a node between one of its "
+         "writes and the end of that section, and a peer's state arriving at a node during an open section that is then aborted; distinct by rendered history.",
+    runs=[
+        dict(test="TestC13GCounter", quick=dict(checks=2400, shards=6, timeout=300, steps=40)),
+        dict(test="TestC13AWORSet", quick=dict(checks=2400, shards=6, timeout=300, steps=40)),
+        dict(test="TestC13Refusals", quick=dict(checks=1600, shards=4, timeout=300, steps=40)),
+    ] + [dict(test=t, thorough=dict(checks=32000, shards=16, timeout=900, steps=40))
+         for t in ["TestC13GCounter"] * 3 + ["TestC13AWORSet"] * 3 + ["TestC13Refusals"] * 2] + [
+        dict(test="TestC13GCounter", thorough=dict(checks=8000, shards=16, timeout=1500, steps=40), race={"thorough": True}),
+        dict(test="TestC13AWORSet", thorough=dict(checks=8000, shards=16, timeout=1500, steps=40), race={"thorough": True}),
+        dict(test="TestC13Refusals", thorough=dict(checks=4800, shards=16, timeout=1500, steps=40), race={"thorough": True}),
+    ],
+)
+
+PROPS["C06"] = dict(
+    pkg="c06", level="fault_enumeration",
+    technique="stateful property-based testing (rapid state machine), direct drive of the real mailbox/channel resources over loopback from one goroutine, against a per-link stream model",
+    level_text="Generated histories over 1-3 senders x 1-2 receivers (each with its own Mailboxes object): send / sender pre-commit+commit / sender abort / "
+               "recv / receiver commit / receiver abort / buffer-length reads in any interleaving, receive buffer 1-3 (Go channels 0-3), read time-out 20-50 ms, "
+               "write/dial 300-400 ms, slow receivers, messages padded to 64 KiB / 2 MiB in 1/6 of the cases so socket buffers fill and writes time out. "
+               "Every received message must be the next undelivered one of its sender's committed stream; rolled-back reads come back first and in order; "
+               "TCP batches are contiguous; length <= pending; no call blocks 20 s; at the end everything is drained and committed-sent == committed-received per link.",
+    level_note="Connections are never severed by the harness. A case whose captured log shows the sender retrying a commit ('network error during commit') is the "
+               "code's own admission of a connection failure: counted under set-aside.commit-retry, not asserted. Loss is declared only after >=3 s AND >=100 fruitless "
+               "read rounds (padded cases: >=12 s, >=3x the case's duration, >=300 rounds) so CPU starvation / TCP zero-window back-off cannot fake it. "
+               "Kernel scheduling between the two socket ends is not owned; the oracle is insensitive to it.",
+    rule="rapid state-machine histories (variant, topology, buffer size, time-outs, slow receivers, padding, then ~50 drawn actions); non-trivial = some mailbox "
+         "received committed messages from >=2 senders AND >=1 receiver abort after a read AND (TCP, channels) >=1 sender abort after a send and >=1 multi-message "
+         "batch; distinct by rendered history.",
+    assumptions=["loopback TCP is healthy: 300 ms write/dial time-outs are two orders above jitter; cases where a commit retry happens anyway are set aside and counted"],
+    runs=[
+        dict(test="TestC06TCP", quick=dict(checks=448, shards=8, timeout=300, steps=50), thorough=dict(checks=22400, shards=16, timeout=3000, steps=50)),
+        dict(test="TestC06Relaxed", quick=dict(checks=800, shards=4, timeout=300, steps=50), thorough=dict(checks=40000, shards=16, timeout=3000, steps=50)),
+        dict(test="TestC06Channels", quick=dict(checks=420, shards=3, timeout=300, steps=50), thorough=dict(checks=21000, shards=16, timeout=3000, steps=50)),
+        dict(test="TestC06RelaxedWriteTimeout", quick=dict(checks=1, shards=1, timeout=120), thorough=dict(checks=1, shards=1, timeout=120)),
+    ],
+)
+
+PROPS["C11"] = dict(
+    pkg="c11", level="fault_enumeration",
+    technique="property-based testing (rapid): acceptor state machine driven through the public Receive against a reference model, with and without the gob round trip; real replicated resources with concurrent writers over a fault-injecting ReplicaHandle and both shipped transports, schedule-independent oracles over the full message log",
+    level_text="Generated proposer/acceptor message sequences (2-4 senders, delay, loss, duplicate, stale, gob) against a model of the documented acceptor rules; "
+               "generated clusters (2-5 nodes, thorough 2-7; 1-3 writers; <=6 sections) with per-message deliver/delay/duplicate/lose decisions, in-process and rpc-like delivery, "
+               "LocalReplicaHandle and RPCReplicaHandle; safety oracles from the log of every message/reply/section; progress as a state check through Receive plus an end-to-end increment budget.",
+    level_note="The resource's goroutines and back-off sleeps are not controlled: replicated cases are not replayable (the event log is the artefact) and all oracles are schedule-independent; "
+               "wall clock only triggers the progress state check. The RPC transport is run without injected loss.",
+    rule="Acceptor: an accepted pre-commit released by the proposer's Abort, then a competitor accepted for that version. Replicated: >=2 writers proposing the same version "
+         "with overlapping pre-commit rounds and >=1 rejected proposal; distinct by rendered log.",
+    runs=[
+        dict(test="TestC11Acceptor", quick=dict(checks=32000, shards=8, timeout=300), thorough=dict(checks=1200000, shards=16, timeout=2400)),
+        dict(test="TestC11Replicated", race={"thorough": True},
+             quick=dict(checks=320, shards=16, timeout=300, shrink="2s"),
+             thorough=dict(checks=12800, shards=16, timeout=3000, shrink="2s")),
+    ],
+)
